@@ -288,7 +288,7 @@ fn one_issuance(ctx: &mut Ctx, pki: &Pki, label: &str, nss: Namespaces, auth: Op
     let device_key = SigningKey::random(&mut ctx.rng);
     let now = time::OffsetDateTime::now_utc().replace_nanosecond(0).unwrap();
     // the issuer may hand over timestamps in any UTC offset (whole hours, +05:30, -03:30, +05:45 ...): the instant counts
-    let mut in_some_offset = |ctx: &mut Ctx, t: time::OffsetDateTime| -> time::OffsetDateTime {
+    let in_some_offset = |ctx: &mut Ctx, t: time::OffsetDateTime| -> time::OffsetDateTime {
         let offs: [(i8, i8); 7] = [(0, 0), (0, 0), (1, 0), (5, 30), (-3, -30), (5, 45), (-11, 0)];
         let (h, m) = offs[ctx.rng.gen_range(0..offs.len())];
         t.to_offset(time::UtcOffset::from_hms(h, m, 0).unwrap())
